@@ -8,6 +8,8 @@ Code ~ Spec: TLC emits, per lattice cell, the exact textbook row; the driver run
 """
 import math
 
+import numpy as np
+
 from .. import cards, common
 
 PIDSEQ = [-6, -5, -4, -3, -2, -1, 21, 1, 2, 3, 4, 5, 6]
@@ -26,17 +28,26 @@ def build_cards(pt, ckm2):
     xg = cards.make_grid(4, 4, x_min=1e-2)
     x = xg[4]
     name = f"{pt['kind']}_{pt['flav']}"
-    ob = cards.obs({name: [dict(x=x, Q2=Q2)]}, xgrid=xg, deg=3, prDIS=pt["proc"],
+    # One card, eight points, as a user would write it: the judged node point sits third, between decoys at other virtualities
+    # whose Q2 order is not a self-inverse permutation, followed by four points OFF the nodes at the judged virtuality (first,
+    # a bulk, the second-to-last and the last interval of the grid).
+    off = [0.5 * (xg[0] + xg[1]), 0.5 * (xg[3] + xg[4]), 0.5 * (xg[-3] + xg[-2]), 0.3 * xg[-2] + 0.7 * xg[-1]]
+    kins = [dict(x=x, Q2=2 * Q2), dict(x=x, Q2=4 * Q2), dict(x=x, Q2=Q2), dict(x=x, Q2=8 * Q2)] + [dict(x=xo, Q2=Q2) for xo in off]
+    ob = cards.obs({name: kins}, xgrid=xg, deg=3, prDIS=pt["proc"],
                    ProjectileDIS=cards.PROJ_NAME[pt["proj"]], PolarizationDIS=float(common.frac(pt["pol"])),
                    PropagatorCorrection=float(1 - common.frac(pt["omd"])))
-    return th, ob, name, x, 4
+    return th, ob, name, x, 4, off
+
+
+def xg_of():
+    return cards.make_grid(4, 4, x_min=1e-2)
 
 
 def execute(ob):
     """Run the real code for one obligation; return the recorded trace line."""
     pt = ob["pt"]
-    th, o, name, x, j0 = build_cards(pt, ob["ckm2"])
-    line = dict(oid=ob["oid"], pt=pt, outcome="OK", nf=pt["nf"], row=[[0, 1]] * 13, offnode_milli=0, raw=[])
+    th, o, name, x, j0, off = build_cards(pt, ob["ckm2"])
+    line = dict(oid=ob["oid"], pt=pt, outcome="OK", nf=pt["nf"], row=[[0, 1]] * 13, offnode_milli=0, shape_milli=0, raw=[])
     try:
         from yadism.coefficient_functions import Combiner  # noqa: F401
         out = cards.run(th, o)
@@ -46,8 +57,26 @@ def execute(ob):
     except Exception as ex:
         line["outcome"] = "Crash_" + type(ex).__name__
         return line
-    res = out[name][0]
+    res = out[name][2]
     val = res.orders[(0, 0, 0, 0)][0]
+    if (res.x, res.Q2) != (x, Q2):
+        line["outcome"] = "Crash_SlotHoldsAnotherPoint"
+        return line
+    # off the nodes: operator[p][j] = x * weight_p * p_j(x) with eko's basis functions and the EXPECTED weight
+    from eko.interpolation import InterpolatorDispatcher, XGrid
+
+    interp = InterpolatorDispatcher(XGrid(xg_of(), True), 3, mode_N=False)
+    scale = max(abs(float(common.frac(e))) for e in ob["expect"]) or 1.0
+    worst = 0.0
+    for i, xo in enumerate(off):
+        r = out[name][4 + i]
+        pj = np.array([float(b(xo)) for b in interp])
+        v = r.orders[(0, 0, 0, 0)][0]
+        for p, e in zip(PIDSEQ, ob["expect"]):
+            want = xo * float(common.frac(e)) * pj
+            got = np.asarray(v[list(out["pids"]).index(p)]) * 4.0 ** pt.get("rexp", 0)
+            worst = max(worst, float(np.max(np.abs(got - want))) / (scale * xo))
+    line["shape_milli"] = common.milli(worst, 1e-11)
     pids = list(out["pids"])
     row, raw, off = [], [], 0.0
     for p, e in zip(PIDSEQ, ob["expect"]):
@@ -109,6 +138,7 @@ def run(ctx):
     ctx.selftest("Trace_C02", "Trace.cfg", good, [
         ("row", lambda l: dict(l, row=[[r[0] + (1 if r[0] != 0 else 0), r[1]] for r in l["row"]])),
         ("offnode", lambda l: dict(l, offnode_milli=5000)),
+        ("shape", lambda l: dict(l, shape_milli=5000)),
         ("nf", lambda l: dict(l, nf=l["nf"] - 1)),
         ("outcome", lambda l: dict(l, outcome="Crash_KeyError"))])
     for oid, clause in bad.items():
